@@ -126,6 +126,46 @@ def run(ctx):
               if not ar.violations else ar.violations[0].msg, zw.file,
               ar.violations[0].node.line if ar.violations else zw.line,
               path=ar.violations[0].path if ar.violations else None, config=config)
+        # ---- f  every byte queued in automatic mode went through the rolling hash
+        from ..cfg import must_pass_edges
+        from ..rules.common import node_containing
+        g = prog.cfg(zw)
+        scan_loops = []
+        for st in walk_stmts(zw.body):
+            if st.k in ('for', 'while', 'do'):
+                inner = []
+                for sub in walk_stmts(st.body):
+                    for ex in ([sub.e] if getattr(sub, 'e', None) is not None else []):
+                        inner += [c for c in calls_in(ex) if callee_name(c) == 'buzhash_update']
+                cond_calls = [c for c in calls_in(st.e) if callee_name(c) == 'buzhash_update'] if getattr(st, 'e', None) is not None else []
+                if inner or cond_calls:
+                    scan_loops.append(st)
+        ck.require(len(scan_loops) >= 1, 'zck_write: the loop that feeds buzhash_update() was not found')
+        from ..cfg import dominates
+        heads = [n for n in g.nodes if n.loop is not None and any(n.loop is st for st in scan_loops)]
+        ck.require(bool(heads), 'zck_write: head node of the scanning loop not found')
+        nq = 0
+        for c in calls_of(zw, ('comp_write',)):
+            nd = node_containing(g, c.uid)
+            if nd is None:
+                continue
+            mp = must_pass_edges(g, nd)
+            manual = False
+            for b, lab in mp:
+                op_, l_, r_ = atom_cmp(b.e, lab)
+                if last_field(l_) == 'manual_chunk' and op_ == '!=' and const_value(r_) == 0:
+                    manual = True
+            if manual:
+                continue
+            nq += 1
+            dominated = any(dominates(g, h, nd) for h in heads)
+            ck.ob('C16-f', 'R2.scan-before-queue', zw.name, 'comp_write@auto#%d' % nq, dominated,
+                  'automatic mode: this comp_write() is reached only through the scanning loop (inside it, or after its '
+                  'exit): the bytes it queues were fed to buzhash_update()' if dominated else
+                  'automatic mode: comp_write() is reachable without passing the loop that feeds buzhash_update(): bytes '
+                  'are queued that the rolling hash never saw, so later boundaries depend on how the caller split the '
+                  'data into write calls', c.file, c.line, config=config)
+        ck.min_instances('comp_write calls of the automatic branch', nq, 2)
         # canonical maximum-size test
         subst = unique_defs(zw)
         g = prog.cfg(zw)
